@@ -17,15 +17,40 @@ def hardlink_excludes_symlink(ck: Checker, rule: str, f_sym: str, f_hard: str) -
     the link count is the object's: without the exclusion such a file is taken for a hard link and kept."""
     fn = ck.prog.func("hashfile.checkout", "_needs_relink")
     g = ck.cfg(fn)
-    rets = [n for n in g.nodes.values() if n.kind == "stmt" and isinstance(n.ast, ast.Return) and n.ast.value is not None
+    # the inode comparison, returned directly or kept as the verdict of this link type
+    rets = [n for n in g.nodes.values() if n.kind == "stmt" and isinstance(n.ast, (ast.Return, ast.Assign)) and n.ast.value is not None
             and sum(1 for a in walk_expr(n.ast.value) if isinstance(a, ast.Attribute) and a.attr == "inode") >= 2]
     ck.floor(rule, len(rets), 1, "inode comparisons in _needs_relink")
+
+    depth_ = [0]
+
+    def single_defs(nm):
+        ds_ = scope_of(fn).get(nm)
+        if len(ds_) == 1 and ds_[0].kind in ("assign", "annassign") and getattr(ds_[0], "value", None) is not None and not fn.has_param(nm):
+            return ds_[0].value
+        return None
+
+    # names that are plain copies of the symlink flag (`file_is_symlink = is_symlink`) stand for it
+    sym_cls = {f_sym} if f_sym else set()
+    for _ in range(4):
+        for nm_ in list(scope_of(fn).defs):
+            v_ = single_defs(nm_)
+            if isinstance(v_, ast.Name) and (v_.id in sym_cls) != (nm_ in sym_cls):
+                sym_cls |= {nm_, v_.id}
 
     # (a) by definition: is_hardlink is false whenever is_symlink is true
     def tri(e, env):
         """three-valued evaluation: True / False / None (unknown)"""
         if isinstance(e, ast.Name) and e.id in env:
             return env[e.id]
+        if isinstance(e, ast.Name) and depth_[0] < 6:
+            ds_ = single_defs(e.id)
+            if ds_ is not None:
+                depth_[0] += 1
+                try:
+                    return tri(ds_, env)
+                finally:
+                    depth_[0] -= 1
         if isinstance(e, ast.UnaryOp) and isinstance(e.op, ast.Not):
             v = tri(e.operand, env)
             return None if v is None else (not v)
@@ -37,14 +62,14 @@ def hardlink_excludes_symlink(ck: Checker, rule: str, f_sym: str, f_hard: str) -
         return None
 
     defs = [d for d in scope_of(fn).get(f_hard or "") if d.kind == "assign"]
-    by_def = bool(defs) and all(tri(d.value, {f_sym: True}) is False for d in defs)
+    by_def = bool(defs) and all(tri(d.value, {n_: True for n_ in sym_cls}) is False for d in defs)
     for r in rets:
         # (b) or by test: every path to the inode comparison crosses "not a symlink"
         def not_sym(a, lab):
             if a.kind != "test":
                 return False
             t = norm(a.ast)
-            return (t == f_sym and lab == "F") or (t == f"not {f_sym}" and lab == "T")
+            return any((t == s_ and lab == "F") or (t == f"not {s_}" and lab == "T") for s_ in sym_cls)
 
         by_test = avoiding_path(g, r.id, lambda x: False, stop_edge=lambda a, lab, b: not_sym(a, lab)) is None if f_sym else False
         ck.require(by_def or by_test, rule, fn, r, "the hard-link identity test is never applied to a symbolic link",
